@@ -19,9 +19,10 @@ Set iteration (every enumeration order of a Python set is a legal behaviour):
 * `append_perm_invariant_refuted`  the full statement for appending loops is FALSE — genuine defect
                                    of /repo (`for pname in call_param_names`, finding F-C14-2)
 * `refresh_perm_invariant_partial` the shape refresh, when no visited node feeds a visited node
-* `refresh_perm_invariant_refuted` the full statement for the shape refresh is FALSE (two-level
-                                   DAG, two orders, two annotations) — genuine defect of /repo
-* `refresh_graph_order_invariant`  the candidate fix (`for n in nodes: if n in elem_nodes`)
+* `refresh_perm_invariant_refuted` the full statement for the shape refresh in SET order is FALSE (two-level
+                                   DAG, two orders, two annotations) — genuine defect F-C14-1 of /repo,
+                                   demonstrated on the real code and fixed there by 4ccbe6a
+* `refresh_graph_order_invariant`  full strength for the fixed code (`for n in nodes: if n in elem_nodes`)
 History / hashing:
 * `memo_transparent`               a consistent memo cache never changes an answer, for all histories
 * `hash_not_in_output`             keys that reach the registry through any two injective encodings
@@ -256,7 +257,7 @@ def witnessExp : Node := ⟨1, 11, [10]⟩
 
 /-- **Refuted full statement.** `fold_perm_invariant` does *not* hold for the refresh step on
     multi-level DAGs: visiting `Exp` before `Mul` leaves the stale transposed shape on `Exp`'s
-    output. This is the behaviour of the unchanged /repo (finding F-C14-1). -/
+    output. This was the behaviour of /repo up to 823e012 (finding F-C14-1, fixed by 4ccbe6a). -/
 theorem refresh_perm_invariant_refuted :
     ¬ (∀ (l l' : List Node) (ann : Ann), l.Perm l' → refreshAll l ann = refreshAll l' ann) := by
   intro hall
@@ -268,9 +269,9 @@ theorem refresh_perm_invariant_refuted :
 example : refreshAll [witnessMul, witnessExp] witnessAnn 11 = some [2, 3, 4] ∧
     refreshAll [witnessExp, witnessMul] witnessAnn 11 = some [2, 4, 3] := by decide
 
-/-- **Candidate fix.** Visiting the members in graph order (`for n in nodes: if n in elem_nodes`,
-    as the code already does two patterns later) makes the refresh independent of how the set
-    enumerates, for every DAG. -/
+/-- **Full strength for the fixed code (4ccbe6a).** Visiting the members in graph order
+    (`for n in nodes: if n in elem_nodes`) makes the refresh independent of how the set enumerates,
+    for every DAG. -/
 theorem refresh_graph_order_invariant (g : Graph) (s s' : List Nat) (ann : Ann) (h : s.Perm s') :
     refreshAll (inGraphOrder g s) ann = refreshAll (inGraphOrder g s') ann := by
   rw [inGraphOrder_perm_invariant g s s' h]
